@@ -2,6 +2,7 @@ import Rangers.Basic.Hex
 import Rangers.Basic.Line
 import Rangers.Model.Evm10Interp
 import Rangers.Model.Evm10Call
+import Rangers.Model.Evm10Cache
 import Rangers.Model.Evm10Keccak
 import Rangers.Generated.Evm10JumpTable
 /-
@@ -23,6 +24,40 @@ def showOutcome : Outcome → String
   | .fail e => s!"err {e.name}"
   | .unmodelled _ => "unmodelled"
   | .outOfFuel => "out-of-fuel"
+
+/-- one `jd` session: tokens `c<id>:<code>:<hash label, - = zero hash>` create a frame sharing the
+map, `v<id>:<dest>` asks validJumpdest; answer per query `t|f` followed by the size of the shared map -/
+def jdSession (toks : List String) : Option String :=
+  let rec go (toks : List String) (cs : List (Nat × JContract)) (jd : JMap) (acc : List String) :
+      Option String :=
+    match toks with
+    | [] => some (if acc.isEmpty then "-" else " ".intercalate acc.reverse)
+    | t :: rest =>
+      match t.splitOn ":" with
+      | [a, b, c] =>
+        if a.startsWith "c" then
+          match (a.drop 1).toNat?, ofHex? b, ofHex? c with
+          | some id, some code, some h =>
+            let jc : JContract := { code := code, codeHash := if h.isEmpty then none else some h, analysis := none }
+            go rest ((id, jc) :: cs.filter (fun x => x.1 != id)) jd acc
+          | _, _, _ => none
+        else none
+      | [a, b] =>
+        if a.startsWith "v" then
+          match (a.drop 1).toNat?, ofHex? b with
+          | some id, some d =>
+            match cs.find? (fun x => x.1 == id) with
+            | some (_, jc) =>
+              if d.length > 32 then none
+              else
+                let r := validJumpdestJ jc jd (U256.setBytes d)
+                go rest ((id, r.2.1) :: cs.filter (fun x => x.1 != id)) r.2.2
+                  ((if r.1 then s!"t{r.2.2.length}" else s!"f{r.2.2.length}") :: acc)
+            | none => none
+          | _, _ => none
+        else none
+      | _ => none
+  go toks [] [] []
 
 def step (_ : Unit) (line : String) : Unit × String :=
   match splitWords line with
@@ -63,6 +98,10 @@ def step (_ : Unit) (line : String) : Unit × String :=
           | some (m', rd) => ((), s!"ok {toHex m'} {toHex rd}")
           | none => ((), "PANIC")
     | _, _, _, _, _ => ((), "bad-op")
+  | "jd" :: toks =>
+    match jdSession toks with
+    | some r => ((), r)
+    | none => ((), "bad-op")
   | ["bitmap", code] =>
     match ofHex? code with
     | some code => ((), toHex (Bitvec.codeBitmap code))
